@@ -1,11 +1,18 @@
 (* Reads case lines "cmd value ..." on stdin, prints the model's answer for
    each on stdout, one line per case, in the same canonical syntax the Go
    harness uses for the implementation's answer. *)
+module S = Stdlib.String
+module L = Stdlib.List
+module A = Stdlib.Array
+module H = Stdlib.Hashtbl
+module B = Stdlib.Buffer
+module C = Stdlib.Char
+type ostring = string
 open Model
 open Vparse
 
-let handlers : (string, v list -> string) Hashtbl.t = Hashtbl.create 64
-let reg name f = Hashtbl.replace handlers name f
+let handlers : (ostring, v list -> ostring) H.t = H.create 64
+let reg name f = H.replace handlers name f
 
 let vopts ign mf mr = { ign = bv ign; mf = zv mf; mr = zv mr }
 
@@ -28,23 +35,23 @@ let () =
       show_bool (verdict_spec_b (zv nerrs) (zv s) (zv f) (zv d) (vopts ign mf mr))
     | _ -> failwith "verdict_spec: arity")
 
-let () = List.iter (fun f -> f reg) !Handlers.all
+let () = L.iter (fun f -> f reg) !Handlers.all
 
 let () =
   try
     while true do
       let line = input_line stdin in
-      let line = String.trim line in
+      let line = S.trim line in
       if line = "" || line.[0] = '#' then print_endline line
       else begin
-        let toks = List.filter (fun s -> s <> "") (String.split_on_char ' ' line) in
+        let toks = L.filter (fun s -> s <> "") (S.split_on_char ' ' line) in
         match toks with
         | [] -> print_endline ""
         | cmd :: args ->
           let out =
             try
-              let h = try Hashtbl.find handlers cmd with Not_found -> failwith ("unknown cmd " ^ cmd) in
-              h (List.map parse_value args)
+              let h = try H.find handlers cmd with Not_found -> failwith ("unknown cmd " ^ cmd) in
+              h (L.map parse_value args)
             with
             | Failure m -> "DRIVER-ERROR " ^ m
             | Stack_overflow -> "DRIVER-ERROR stack overflow"
